@@ -14,10 +14,12 @@ Inductive iout := IPanic | IQ (q : list N).
 Inductive tail := TSplit (seed : N) | TConst (w : N).
 Record c17draw := mkDraw { d_prefix : list N; d_tail : tail; d_used : N; d_degenerate : bool; d_out : iout; d_out2 : iout }.
 (* constructor observation: panic, or (for the partition-based strategies) the bins of instance 1:
-   validator ids and the stake taken per entry; the shuffle order is read off the bins *)
+   validator ids and the stake taken per entry.  c_bins_equal: the independently constructed second instance
+   has exactly the same bins (PartitionSampler::new shuffles with a fixed-seed RNG: the bins are a function of
+   the validator set, and the model predicts them) *)
 Inductive ictor := ICtorPanic | ICtorOk (bins : list (list (N * N))).
 Record c17case := mkC17 { c_id : N; c_stakes : list N; c_strat : strategy; c_ctor : ictor; c_ctor2_panicked : bool;
-                          c_draws : list c17draw }.
+                          c_bins_equal : bool; c_draws : list c17draw }.
 
 Definition list_eqb (a b : list N) : bool :=
   Nat.eqb (length a) (length b) && forallb (fun '(x, y) => x =? y) (combine a b).
@@ -31,16 +33,6 @@ Definition iout_eqb (a b : iout) : bool :=
   | IQ x, IQ y => list_eqb x y
   | _, _ => false
   end.
-
-(* order of first appearance of validator ids in the bins = the shuffled order (zero-stake validators
-   never enter a bin and do not influence the partition) *)
-Fixpoint first_seen (seen : list N) (l : list N) : list N :=
-  match l with
-  | [] => []
-  | x :: r => if existsb (N.eqb x) seen then first_seen seen r else x :: first_seen (x :: seen) r
-  end.
-Definition order_of_bins (bins : list (list (N * N))) : list N := first_seen [] (map fst (concat bins)).
-Definition identity_order (stakes : list N) : list N := map fst (indexed 0 stakes).
 
 Definition draw_stream (d : c17draw) : stream :=
   let pre := firstn (N.to_nat (d_used d)) (d_prefix d) in
@@ -113,11 +105,7 @@ Fixpoint run_draws (st : strategy) (stakes : list N) (sm : cres sampler) (i : N)
 Definition run_c17 (c : c17case) : list (N * N * N) :=
   let st := c_strat c in
   let stakes := c_stakes c in
-  let order := match c_ctor c with
-               | ICtorOk bins => match bins with [] => identity_order stakes | _ => order_of_bins bins end
-               | ICtorPanic => identity_order stakes
-               end in
-  let sm := construct st stakes order in
+  let sm := construct_current st stakes in
   let ctor_mismatch :=
     match sm, c_ctor c with
     | COk m, ICtorOk bins =>
@@ -131,7 +119,7 @@ Definition run_c17 (c : c17case) : list (N * N * N) :=
   let ctor_violation :=
     match c_ctor c with
     | ICtorPanic => must_construct st stakes
-    | ICtorOk _ => c_ctor2_panicked c && must_construct st stakes
+    | ICtorOk _ => (c_ctor2_panicked c && must_construct st stakes) || negb (c_bins_equal c)
     end in
   emit (c_id c) 0 ctor_mismatch ctor_violation ++ run_draws st stakes sm 1 (c_id c) (c_draws c).
 
